@@ -42,7 +42,7 @@ for p in props:
     })
 m = {
     "version": 1,
-    "setup_cmd": "cd lean && lake build Exetera exetera_model",
+    "setup_cmd": "python3 tools/translate.py --repo /repo; cd lean && (lake build Exetera exetera_model || lake build exetera_model)",
     "hooks": {"guard": "EXETERA_VERIF", "enable": "no source hooks: the harness wraps module attributes of exetera.core.operations from outside (chunk sizes, call counters); EXETERA_VERIF=1 is set in worker processes but nothing in /repo reads it",
               "baseline_off_cmd": "python3 tools/baseline_check.py", "source_commits": [], "add_only": True},
     "engines": [{"name": "lean4-proof+correspondence", "path": "checks/run.py",
